@@ -602,6 +602,13 @@ func (u *Unit) callFunc(st *State, call *ast.CallExpr, fn *types.Func) []Value {
 		}
 	}
 	cs.args = u.evalArgs(st, call, sig)
+	if len(u.frames) == 1 && u.spec != nil && (len(u.spec.Ghost) > 0 || len(u.spec.Asserts) > 0) {
+		extra := map[string]Value{}
+		for i, a := range cs.args {
+			extra[fmt.Sprintf("$a%d", i)] = a
+		}
+		u.runAnchorsNamed(st, "before:"+fn.Name(), call.Pos(), extra)
+	}
 	res := u.dispatch(st, cs)
 	if cs.copyBack != nil {
 		cs.copyBack(st)
@@ -692,6 +699,15 @@ func (u *Unit) dispatch(st *State, cs *callSite) []Value {
 			if lit, ok := ast.Unparen(a).(*ast.FuncLit); ok {
 				u.spawnLit(st, lit, "callback")
 			}
+		}
+	}
+	if u.forceInline[origin] {
+		if st.dead() {
+			// bounded unrolling: this path is already infeasible (a failed obligation was assumed)
+			return u.freshResults(st, cs.sig, fn.Name())
+		}
+		if fi, ok := u.eng.funcs[origin]; ok {
+			return u.inlineFunc(st, cs, fi)
 		}
 	}
 	if fc, ok := u.eng.contracts[origin]; ok {
@@ -850,6 +866,29 @@ func (u *Unit) runInline(st *State, fr *frame, sig *types.Signature, recv *Value
 	u.inlineDepth++
 	u.inlineSites = append(u.inlineSites, u.curPos)
 	defer func() { u.inlineDepth--; u.inlineSites = u.inlineSites[:len(u.inlineSites)-1] }()
+	// recursive unrolling (bounded units): the callee's parameters and locals are the same
+	// objects as the caller's; save the caller's bindings and restore them afterwards
+	recursive := false
+	for _, f := range u.frames {
+		if f.body == fr.body {
+			recursive = true
+		}
+	}
+	if recursive {
+		saved := map[types.Object]Value{}
+		for obj, v := range st.vars {
+			if obj.Pos() >= fr.body.Pos()-4096 && obj.Pos() <= fr.body.End() && obj.Parent() != nil && obj.Pkg() != nil && obj.Parent() != obj.Pkg().Scope() {
+				if sc := fr.fn; sc != nil && sc.Scope() != nil && sc.Scope().Contains(obj.Pos()) {
+					saved[obj] = v
+				}
+			}
+		}
+		defer func() {
+			for obj, v := range saved {
+				st.vars[obj] = v
+			}
+		}()
+	}
 	if recv != nil && sig.Recv() != nil {
 		st.vars[sig.Recv()] = Value{T: sig.Recv().Type(), L: recv.L}
 	}
